@@ -1,6 +1,57 @@
-// Put around the #include of the frigg header under test (after every std header it needs has been included):
+// Put around the #include of the frigg header under test:
 //   #include "../engine/verif_atomic_begin.hpp" / #include <frg/...> / #include "../engine/verif_atomic_end.hpp"
-// No #pragma once: the pair may be used several times in one translation unit.
+// Inside, std::atomic<T>, std::atomic_thread_fence, the __atomic_* builtins and the x86 pause builtin are interposed: every access is a
+// schedule point of dsched, feeds the happens-before clocks (vclock.hpp) with the memory order the code passes, and is then performed
+// for real with that same order (so ThreadSanitizer judges it too). No frigg source is modified.
+// No #pragma once: the pair may be used several times in one translation unit. Standard headers must not be compiled under the macros:
+// the usual ones are included here first, so that a later #include of them inside the region is a no-op.
+#include <atomic>
+#include <memory>
+#include <new>
+#include <type_traits>
+#include <utility>
+#include <tuple>
+#include <functional>
+#include <algorithm>
+#include <limits>
+#include <bit>
+#include <concepts>
+#include <initializer_list>
+#include <optional>
+#include <string>
+#include <vector>
+#include <mutex>
+#include <cstdint>
+#include <cstddef>
+#include <cstring>
+#include <stdint.h>
+#include <stddef.h>
+#include <string.h>
+#include "verif_atomic.hpp"
+#include "verif_builtins.hpp"
 #define atomic verif_atomic
 #define atomic_thread_fence verif_atomic_thread_fence
 #define atomic_signal_fence verif_atomic_signal_fence
+#define __atomic_fetch_add(p, v, mo) vhooks::fetch_add(p, v, mo)
+#define __atomic_fetch_sub(p, v, mo) vhooks::fetch_sub(p, v, mo)
+#define __atomic_fetch_or(p, v, mo) vhooks::fetch_or(p, v, mo)
+#define __atomic_fetch_and(p, v, mo) vhooks::fetch_and(p, v, mo)
+#define __atomic_fetch_xor(p, v, mo) vhooks::fetch_xor(p, v, mo)
+#define __atomic_fetch_nand(p, v, mo) vhooks::fetch_nand(p, v, mo)
+#define __atomic_add_fetch(p, v, mo) vhooks::add_fetch(p, v, mo)
+#define __atomic_sub_fetch(p, v, mo) vhooks::sub_fetch(p, v, mo)
+#define __atomic_or_fetch(p, v, mo) vhooks::or_fetch(p, v, mo)
+#define __atomic_and_fetch(p, v, mo) vhooks::and_fetch(p, v, mo)
+#define __atomic_xor_fetch(p, v, mo) vhooks::xor_fetch(p, v, mo)
+#define __atomic_nand_fetch(p, v, mo) vhooks::nand_fetch(p, v, mo)
+#define __atomic_load_n(p, mo) vhooks::load_n(p, mo)
+#define __atomic_load(p, r, mo) vhooks::load(p, r, mo)
+#define __atomic_store_n(p, v, mo) vhooks::store_n(p, v, mo)
+#define __atomic_store(p, v, mo) vhooks::store(p, v, mo)
+#define __atomic_exchange_n(p, v, mo) vhooks::exchange_n(p, v, mo)
+#define __atomic_exchange(p, v, r, mo) vhooks::exchange(p, v, r, mo)
+#define __atomic_compare_exchange_n(p, e, v, w, smo, fmo) vhooks::compare_exchange_n(p, e, v, w, smo, fmo)
+#define __atomic_test_and_set(p, mo) vhooks::test_and_set(p, mo)
+#define __atomic_clear(p, mo) vhooks::clear(p, mo)
+#define __atomic_thread_fence(mo) vhooks::thread_fence(mo)
+#define __builtin_ia32_pause() dsched::spin_yield()
